@@ -101,7 +101,7 @@ func vuUploader(dir string, cfg *telemetry.UploadConfig, version, url string, st
 		dir:             telemetry.NewDir(dir),
 		uploadServerURL: url,
 		startTime:       RunConfig{StartTime: start}.startTime(), // as newUploader does
-		logger:          log.New(io.Discard, "", 0),
+		logger:          log.New(vuLogWriter(), "", 0),
 	}
 }
 
@@ -142,4 +142,12 @@ func vuDescribeConfig(cfg *telemetry.UploadConfig) string {
 		sb.WriteString("}")
 	}
 	return sb.String()
+}
+
+// vuLogWriter: the uploader's log is discarded unless VERIF_UPLOAD_LOG is set (debugging a replay).
+func vuLogWriter() io.Writer {
+	if os.Getenv("VERIF_UPLOAD_LOG") != "" {
+		return os.Stderr
+	}
+	return io.Discard
 }
